@@ -332,3 +332,11 @@ def check(ctx: Ctx) -> None:
     from ..util import LockSets as _LS
     from .C10 import check_handover_lock
     check_handover_lock(ctx, _LS(repo), "C03.i")
+
+    # connection loss is observed consistently: every live channel -- with or without a receiver callback -- has its receiving
+    # side ended by the sweep (shared with C04.e / C10.h / C11.k)
+    from .C04 import check_close_all
+    check_close_all(ctx, "C03.j")
+    # ... and a callback receiver observes the close (its end marker) whether or not the Channel object still exists
+    from .C18 import check_unregister_total
+    check_unregister_total(ctx, "C03.k")
